@@ -44,7 +44,7 @@ def main():
     i = sys.argv.index("--")
     prop, n, breaks, caught = sys.argv[1:5]
     targets = " ".join(sys.argv[i + 1:])
-    wt = f"/tmp/wt/{prop}"
+    wt = os.path.join(os.environ.get("WT_ROOT", "/tmp/wt"), prop)
     src = f"{wt}/out/{n}"
     head = subprocess.run(["git", "-C", "/repo", "rev-parse", "HEAD"], capture_output=True, text=True).stdout.strip()
     sid = f"{breaks}-{prop}-{n}" if breaks != prop else f"{prop}-{n}"
